@@ -41,12 +41,13 @@ theorem hier_request_fidelity (cfg : Cfg) (hsc : cfg.selfConsistent = true)
     (R : Registry) (name ns : Text) (base : Option Text) (fields : Fields) (o : Occ) (args : List (Text × Val))
     (hwf : wfTy (.obj name ns base fields o) = true) (hc : conformsFields fields args = true)
     (hmp : cfg.proto.isMsgpack = true → fitsFields facts08 args = true ∧ mpReadableFields fields = true)
-    (hpl : plainFields cfg.complexAs fields args = true) :
+    (hpl : plainFields cfg.complexAs fields args = true)
+    (hnm : cfg.notWrapped.contains name = false) :
     decodeRequest facts08 facts02 cfg R (.obj name ns base fields o)
       (requestDoc cfg (ownSpell facts08 cfg) R (.obj name ns base fields o) (.obj name args)) = .good (.obj name args) :=
   request_roundtrip R (ownCtx leafLaws08 facts02_rt hsc) (reqKey_keyOut _ rfl) name ns base fields o args hwf hc
     (fun hm => by have := hmp hm; exact ⟨by simpa [fitsV] using this.1, fun _ => by simpa [mpReadable] using this.2⟩)
-    (by simpa [plain, ownSpell] using hpl)
+    (by simpa [plain, ownSpell] using hpl) hnm
 
 /-- **Both ends.** What `serialize(REQUEST)` of the protocol itself writes for conformant arguments — the input message through
     `_object_to_doc` (T2: `hier.client-request`) — is read by `deserialize(REQUEST)` of the same configuration as exactly those
@@ -58,10 +59,11 @@ theorem hier_client_request_roundtrip (cfg : Cfg) (hsc : cfg.selfConsistent = tr
     (R : Registry) (name ns : Text) (base : Option Text) (fields : Fields) (o : Occ) (args : List (Text × Val))
     (hwf : wfTy (.obj name ns base fields o) = true) (hc : conformsFields fields args = true)
     (hmp : cfg.proto.isMsgpack = true → fitsFields facts08 args = true ∧ mpReadableFields fields = true)
-    (hpl : plainFields cfg.complexAs fields args = true) :
+    (hpl : plainFields cfg.complexAs fields args = true)
+    (hnm : cfg.notWrapped.contains name = false) :
     decodeRequest facts08 facts02 cfg R (.obj name ns base fields o)
       (encode facts08 cfg R (.obj name ns base fields o) (.obj name args)) = .good (.obj name args) := by
-  have h := hier_request_fidelity cfg hsc R name ns base fields o args hwf hc hmp hpl
+  have h := hier_request_fidelity cfg hsc R name ns base fields o args hwf hc hmp hpl hnm
   have he : encode facts08 cfg R (.obj name ns base fields o) (.obj name args)
       = encOne R (ownSpell facts08 cfg) (.obj name ns base fields o) (.obj name args) :=
     encode_eq_encOne R (ownSpell facts08 cfg) _ _ (by simp) (by intro vs hv; cases hv)
@@ -79,12 +81,13 @@ theorem hier_decodes_conventional (cfg : Cfg) (cas : ComplexAs) (hcas : cas = .d
     (R : Registry) (name ns : Text) (base : Option Text) (fields : Fields) (o : Occ) (args : List (Text × Val))
     (hwf : wfTy (.obj name ns base fields o) = true) (hc : conformsFields fields args = true)
     (hmp : cfg.proto.isMsgpack = true → fitsFields facts08 args = true)
-    (hpl : plainFields cas fields args = true) :
+    (hpl : plainFields cas fields args = true)
+    (hnm : cfg.notWrapped.contains name = false) :
     decodeRequest facts08 facts02 cfg R (.obj name ns base fields o)
       (requestDoc cfg (convSpell facts08 cfg cas) R (.obj name ns base fields o) (.obj name args)) = .good (.obj name args) :=
   request_roundtrip R (convCtx leafLaws08 facts02_rt cas hcas) (reqKey_str facts02_mp _ rfl) name ns base fields o args hwf hc
     (fun hm => ⟨by simpa [fitsV] using hmp hm, fun h => by cases h⟩)
-    (by simpa [plain, convSpell] using hpl)
+    (by simpa [plain, convSpell] using hpl) hnm
 
 /-- MessagePack clients may mix: `bytes` keys with `str` text leaves (`bk = true`), or `str` keys with the `bin`
     leaves the protocol itself writes (`bk = false`, readable leaf kinds). -/
@@ -92,7 +95,8 @@ theorem hier_decodes_msgpack_keys (cfg : Cfg) (cas : ComplexAs) (bk : Bool) (hca
     (R : Registry) (name ns : Text) (base : Option Text) (fields : Fields) (o : Occ) (args : List (Text × Val))
     (hwf : wfTy (.obj name ns base fields o) = true) (hc : conformsFields fields args = true)
     (hmp : cfg.proto.isMsgpack = true → fitsFields facts08 args = true ∧ (bk = false → mpReadableFields fields = true))
-    (hpl : plainFields cas fields args = true) :
+    (hpl : plainFields cas fields args = true)
+    (hnm : cfg.notWrapped.contains name = false) :
     decodeRequest facts08 facts02 cfg R (.obj name ns base fields o)
       (requestDoc cfg (mixSpell facts08 cfg cas bk) R (.obj name ns base fields o) (.obj name args)) = .good (.obj name args) := by
   have hK : ReqKey facts02 cfg (mixSpell facts08 cfg cas bk) := by
@@ -103,7 +107,7 @@ theorem hier_decodes_msgpack_keys (cfg : Cfg) (cas : ComplexAs) (bk : Bool) (hca
     (fun hm => by
       have := hmp hm
       exact ⟨by simpa [fitsV] using this.1, fun h => by simpa [mpReadable] using this.2 (by simpa using h)⟩)
-    (by simpa [plain, mixSpell] using hpl)
+    (by simpa [plain, mixSpell] using hpl) hnm
 
 /-- What `serialize` writes for a conformant return value — `None` included — decodes, by the same conventions, to
     exactly the value returned. -/
@@ -125,6 +129,15 @@ theorem facts02_guard : facts02.guardPathLocal = true := by decide
     and urlsafe members): chunking is below the model, `Val.bytes` is the concatenation -/
 theorem facts02_bytes_join : facts02.bytesJoinBeforeEncode = true := by decide
 
+/-- both branches of `_complex_to_dict` (str keys: json / yaml; encoded keys: MessagePack) write a `not_wrapped` class without its
+    wrapper when wrappers are kept -/
+theorem facts02_not_wrapped : facts02.notWrappedStrKeys = true ∧ facts02.notWrappedBytesKeys = true := ⟨by decide, by decide⟩
+
+/-- so the spelling the code uses is the spelling the round-trip theorems are about: `not_wrapped` classes (`cfg.notWrapped`)
+    travel without a wrapper in both directions, in every protocol -/
+theorem ownSpellG_eq (cfg : Cfg) : ownSpellG facts08 facts02 cfg = ownSpell facts08 cfg := by
+  simp [ownSpellG, ownSpell, facts02_not_wrapped.1, facts02_not_wrapped.2]
+
 /-- **The document depends on the value, not on object identity.** Whatever Python objects the nodes of a returned
     value are (`ids`: the same `ComplexModel` instance may sit in several members of one object, in several slots of
     one array, in cousins …), as long as no object contains itself, `_object_to_doc` with its cycle guard writes
@@ -132,7 +145,7 @@ theorem facts02_bytes_join : facts02.bytesJoinBeforeEncode = true := by decide
 theorem hier_encoding_ignores_identity (cfg : Cfg) (R : Registry) (t : Ty) (v : Val) (ids : Ids)
     (hac : acyclic [] ids = true) :
     encodeIds facts08 cfg R facts02 t v ids = encode facts08 cfg R t v := by
-  simp only [encodeIds, facts02_guard, Bool.not_true, encode, encodeG_local _ R t v ids [] hac]
+  simp only [encodeIds, facts02_guard, Bool.not_true, encode, encodeG_local _ R t v ids [] hac, ownSpellG_eq]
 
 /-- two presentations of one value — aliased or built from distinct objects — are written identically -/
 theorem hier_aliasing_invisible (cfg : Cfg) (R : Registry) (t : Ty) (v : Val) (ids ids' : Ids)
@@ -181,7 +194,7 @@ def exMsg : Ty := .obj "f".toList "tns".toList none
 def exArgs : List (Text × Val) :=
   [("o".toList, .obj "Inner".toList [("a".toList, .int (-128)), ("s".toList, .list [.str "hé".toList, .str []])]),
    ("l".toList, .list [.date ⟨2024, 2, 29⟩, .none])]
-def exCfg : Cfg := ⟨.json, .soft, false, .dict, false, false, true⟩
+def exCfg : Cfg := ⟨.json, .soft, false, .dict, false, false, true, [], []⟩
 
 example : wfTy exMsg = true := by decide
 example : conformsFields [("o".toList, exInner), ("l".toList, .arr "m".toList (.prim .date {}) {})] exArgs = true := by
